@@ -20,3 +20,5 @@ extern void vs_load_guide(const char *path, const unsigned *shared, unsigned n, 
 extern void vs_guide_tag(int tag);
 extern int vs_guide_status(unsigned long *pos, unsigned long *len, const char **why);
 extern int vs_guide_expect(void);
+extern void vs_delay(int tag, unsigned point, unsigned long nth, unsigned len);
+extern void vs_set_skew_tag(int tag);
